@@ -139,7 +139,7 @@ def _routes_to(facts, ctx, body, target_names, want_roles, inst, props, arg_base
         pp = param_path(c.args[0].val)
         if not (pp and pp[0] == 1 and pp[1] == ()):
             continue
-        callee = facts.by_uid.get(info['uid'])
+        callee = facts.cb(info['uid'])   # in the current view: helpers of the callee may be inlined into it
         if callee is None:
             continue
         if info['name'] in target_names:
@@ -176,6 +176,43 @@ def lww_route(ctx):
         ctx.check(ok, name, body, msg, 'LWWReg::%s %s' % (name, msg), props=props)
 
 
+def _guarded_store(facts, body, src, must_o, never_o):
+    """body stores <param 2><.src> into self.val (assignment, mem::replace or mem::swap): must under ord(new, self.val) = must_o,
+    never under never_o.  Returns (None, details) when it holds, else (message, details)."""
+    it = interp(facts, body)
+    want = ('param', 2)
+    for f_ in src:
+        want = ('field', want, f_)
+    site = None
+    for (bb, si), w in list(it.writes.items()) + [(k_, w_) for k_, w_ in it.muts.items() if w_.kind == 'replace']:
+        tgt = loc_target(it, w.loc)
+        if tgt and tgt[0] == 1 and tgt[1] == ('val',) and versionless(w.val) == want:
+            site = bb
+
+    def classify(a, b, t):
+        for x, y, orient in ((a, b, 'fwd'), (b, a, 'rev')):
+            if versionless(x) == want and versionless(y) == ('field', ('param', 1), 'val'):
+                return ('v', orient)
+        return None
+    if site is None:
+        return 'never assigns the incoming value to val', {}
+    res = {}
+    hit = 0
+    for o in TOTAL:
+        evr = Evaluator(facts, classify=classify, assumption={'v': o})
+        rc = Reach(facts, body, evr)
+        res[o] = (site in rc.reachable, rc.must_pass([site]))
+        hit += len(evr.hits.get('v', ()))
+    det = {'ord(v, self.val) -> (assign may, must)': res}
+    if not hit:
+        return 'assignment not guarded by a comparison of the new value with self.val', det
+    if not res[must_o][1]:
+        return 'a %s value is not stored' % ('larger' if must_o == GT else 'smaller'), det
+    if res[never_o][0]:
+        return 'a %s value overwrites the stored one' % ('smaller' if must_o == GT else 'larger'), det
+    return None, det
+
+
 @rule('MAXMIN-UPDATE', dict(ABSORB_WHY, **{
     'C11': 'MaxReg must keep the largest / MinReg the smallest value ever applied',
 }), floor=2)
@@ -184,55 +221,31 @@ def maxmin_update(ctx):
     facts = ctx.facts
     for adt, must_o, never_o in ((MAXREG, GT, LT), (MINREG, LT, GT)):
         body = ctx.inherent(adt, 'update')
-        it = interp(facts, body)
-        site = None
-        for (bb, si), w in it.writes.items():
-            tgt = loc_target(it, w.loc)
-            if tgt and tgt[0] == 1 and tgt[1] == ('val',) and versionless(w.val) == ('param', 2):
-                site = bb
-
-        def classify(a, b, t):
-            for x, y, orient in ((a, b, 'fwd'), (b, a, 'rev')):
-                if versionless(x) == ('param', 2) and versionless(y) == ('field', ('param', 1), 'val'):
-                    return ('v', orient)
-            return None
         inst = adt.split('::')[-1]
-        if site is None:
-            ctx.fail(inst, body, 'update never assigns the argument to val')
-            continue
-        res = {}
-        hit = 0
-        for o in TOTAL:
-            evr = Evaluator(facts, classify=classify, assumption={'v': o})
-            rc = Reach(facts, body, evr)
-            res[o] = (site in rc.reachable, rc.must_pass([site]))
-            hit += len(evr.hits.get('v', ()))
-        errs = []
-        if not hit:
-            errs.append('assignment not guarded by a comparison of the new value with self.val')
-        if not res[must_o][1]:
-            errs.append('a %s value is not stored' % ('larger' if must_o == GT else 'smaller'))
-        if res[never_o][0]:
-            errs.append('a %s value overwrites the stored one' % ('smaller' if must_o == GT else 'larger'))
-        ctx.check(not errs, inst, body, 'assign must under {%s}, never under {%s}' % (must_o, never_o), errs[0] if errs else '',
-                  details={'ord(v, self.val) -> (assign may, must)': res})
+        msg, det = _guarded_store(facts, body, (), must_o, never_o)
+        ctx.check(msg is None, inst, body, 'assign must under {%s}, never under {%s}' % (must_o, never_o),
+                  'update ' + (msg or ''), details=det)
 
 
 @rule('MAXMIN-ROUTE', dict(ABSORB_WHY, **{'C11': 'merge and apply must both go through the guarded update'}), floor=4)
 def maxmin_route(ctx):
-    """MaxReg/MinReg merge -> update(other.val); apply -> update(op)."""
+    """MaxReg/MinReg merge -> update(other.val); apply -> update(op) (or the same guarded store written in place)."""
     facts = ctx.facts
-    for adt in (MAXREG, MINREG):
+    for adt, must_o, never_o in ((MAXREG, GT, LT), (MINREG, LT, GT)):
         for trait, name in (('CvRDT', 'merge'), ('CmRDT', 'apply')):
             body = ctx.method(adt, trait, name)
             it = interp(facts, body)
             rc = Reach(facts, body, Evaluator(facts))
             ok = False
+            src = ('val',) if name == 'merge' else ()
             for bb, c in it.calls.items():
                 if cinfo(c.cid)['name'] == 'update' and cinfo(c.cid)['local'] and len(c.args) == 2:
-                    pa = param_path(c.args[1].val)
-                    if param_path(c.args[0].val) == (1, ()) and pa and pa[0] == 2 and pa[1] == (('val',) if name == 'merge' else ()) and rc.must_pass([bb]):
+                    pa = value_path(c.args[1].val)
+                    if param_path(c.args[0].val) == (1, ()) and pa and pa[0] == 2 and pa[1] == src and rc.must_pass([bb]):
                         ok = True
+            if not ok:
+                msg, _det = _guarded_store(facts, body, src, must_o, never_o)
+                ok = msg is None
             ctx.check(ok, '%s::%s' % (adt.split('::')[-1], name), body, 'delegates to update with the incoming value',
                       '%s::%s does not pass the incoming value to update on every path' % (adt, name),
                       props=['C11', 'C02', 'C03'] if name == 'merge' else ['C11', 'C03'])
